@@ -641,3 +641,58 @@ func ruleSliceWindow(c *Ctx) {
 	c.census("S-WINDOW", "slice expressions on non-string slices in module code", nSlices, 5)
 	c.note("S-WINDOW: %d windows of field-held slices handed on without a capacity limit", nWindows)
 }
+
+// ruleOptionalDeref (N-NIL): the optional parts of a posting (pointer-typed fields of ast.Posting: amount, cost,
+// balance assertion) are absent on many inputs - in particular after a syntax error, when the parser keeps what
+// it understood.  Every dereference of such a field read is reached only behind a nil test of the same field
+// (there is no recover in the server: a nil dereference on a request or analysis path ends the process).
+func ruleOptionalDeref(c *Ctx) {
+	n := 0
+	for _, f := range c.P.ModuleFuncs() {
+		for _, b := range f.Blocks {
+			for _, ins := range b.Instrs {
+				var ptr ssa.Value
+				switch x := ins.(type) {
+				case *ssa.FieldAddr:
+					ptr = x.X
+				case *ssa.UnOp:
+					if x.Op == token.MUL {
+						if _, isPtr := x.X.Type().Underlying().(*types.Pointer); isPtr {
+							ptr = x.X
+						}
+					}
+				}
+				ld, ok := ptr.(*ssa.UnOp)
+				if !ok || ld.Op != token.MUL {
+					continue
+				}
+				src, ok := ld.X.(*ssa.FieldAddr)
+				if !ok || !typeHasSuffix(src.X.Type(), "ast.Posting") {
+					continue
+				}
+				if _, isPtr := fieldVarOfAddr(src).Type().Underlying().(*types.Pointer); !isPtr {
+					continue
+				}
+				n++
+				guarded := false
+				for _, cc := range controlCondsPol(b) {
+					bo, ok := cc.Cond.(*ssa.BinOp)
+					if !ok {
+						continue
+					}
+					isNilCmp := func(x, y ssa.Value) bool {
+						k, isK := y.(*ssa.Const)
+						return isK && k.IsNil() && sameLoad(x, ld)
+					}
+					if (isNilCmp(bo.X, bo.Y) || isNilCmp(bo.Y, bo.X)) && ((bo.Op == token.NEQ && cc.Taken) || (bo.Op == token.EQL && !cc.Taken)) {
+						guarded = true
+					}
+				}
+				c.check(guarded, "N-NIL", funcName(f), "optional part of a posting dereferenced behind a nil test: "+fieldVarOfAddr(src).Name(), ins.Pos(),
+					"the dereference is reached only when the field was tested to be non-nil",
+					"posting."+fieldVarOfAddr(src).Name()+" is dereferenced on a path without a nil test of that field: postings without that part (inferred amounts, lines the parser only partly understood) make the server panic; there is no recover")
+			}
+		}
+	}
+	c.census("N-NIL", "dereferences of optional parts of a posting", n, 10)
+}
